@@ -100,8 +100,8 @@ CHECKS = {
     ref="DESIGN.md section 4 C02"),
  'C03': dict(
     technique="explicit-state exploration with a state-sanity invariant, plus exhaustive boundary enumeration (below/at/above every feasibility constraint) classified by the reference model",
-    text="Sanity (no negative amount/volume, volume <= capacity) of every object returned along every history of the full operation menu incl. infeasible requests; "
-         "~3 500 boundary cases (all exact-capacity fills 1..200 mL / 0.1..5.0 mL in three spellings, over-draw/negative/zero/empty in L, g, mol, U, destination capacity, fill_to, dilute, create_solution(_from)), directly and as recipe steps; the same sanity judgement on every object handed out by the bake of every recipe program of <= 2/3 steps."+CFG,
+    text="Sanity (no negative amount/volume, volume <= capacity) of every object returned, and feasibility (a transfer / remove / fill_to that clearly fits the reached state must not raise; nothing but ValueError/TypeError/RuntimeError is ever raised) along every history of the full operation menu incl. infeasible requests (depth 2/3) and of C01's 48-action history alphabet (depth 3/4); "
+         "~3 500 boundary cases (all exact-capacity fills 1..200 mL / 0.1..5.0 mL in three spellings, over-draw/negative/zero/empty in L, g, mol, U, destination capacity, fill_to, dilute, create_solution(_from), drained vessels), directly and as recipe steps; the same sanity judgement on every object handed out by the bake of every recipe program of <= 2/3 steps, and a recipe refused for infeasibility stays refused on re-bake."+CFG,
     note="'at the boundary' is must-accept only for decimal-exact boundaries; margins 0.1 %-5 %. " + TRUST,
     ref="DESIGN.md section 4 C03"),
  'C04': dict(
